@@ -4,7 +4,10 @@
 starting with 'fix:' found in notes/<ID>.md. Prints the commit ids."""
 import glob, os, re, subprocess, sys
 pid = sys.argv[1]; dry = "--dry" in sys.argv
-patches = sorted(p for p in glob.glob(f"/verif/proposed_fixes/{pid}-*.patch") if "hook" not in p)
+skip = {int(a.split("=")[1]) for a in sys.argv if a.startswith("--skip=")}
+only_from = max([int(a.split("=")[1]) for a in sys.argv if a.startswith("--from=")] + [0])
+patches = sorted((p for p in glob.glob(f"/verif/proposed_fixes/{pid}-*.patch") if "hook" not in p and "alternative" not in p),
+                 key=lambda p: int(re.search(r"-(\d+)-", os.path.basename(p)).group(1)))
 notes = open(f"/verif/notes/{pid}.md").read()
 # message blocks: from a line starting with "fix:" up to a closing ``` or a blank line followed by a markdown heading
 msgs = []
@@ -23,6 +26,33 @@ while i < len(lines):
         msgs.append("\n".join(blk))
     else:
         i += 1
+if len(msgs) < len(patches):
+    # inline form: `fix: title` — description ...
+    msgs = []
+    for m in re.finditer(r"`(fix:[^`]+)`", notes):
+        title = " ".join(m.group(1).split())
+        rest = notes[m.end():]
+        end = re.search(r"\n\s*\n|\n\s*\d+\.\s|\n\* |\nCommit message", rest)
+        body = rest[: end.start()] if end else rest[:600]
+        body = " ".join(body.replace("—", " ").split()).strip(" .-")
+        body = re.sub(r"\s*Replays? `[^`]*`(, `[^`]*`)*[^.]*\.?", "", body)
+        if title in [x.split("\n")[0] for x in msgs]:
+            continue
+        import textwrap
+        msgs.append(title + ("\n\n" + "\n".join(textwrap.wrap(body, 72)) if body else ""))
+def clean(m):
+    lines = m.split("\n")
+    if lines[0].rstrip().endswith("`"):
+        return lines[0].rstrip().rstrip("`")          # title only: body extraction unreliable
+    out = [lines[0]]
+    for l in lines[1:]:
+        if l.startswith("* ") or l.startswith("- ") or re.match(r"^\d+\. ", l):
+            break
+        out.append(l)
+    while out and not out[-1].strip():
+        out.pop()
+    return "\n".join(out)
+msgs = [clean(m) for m in msgs]
 print(f"{len(patches)} patches, {len(msgs)} fix: messages")
 for n, p in enumerate(patches):
     m = msgs[n] if n < len(msgs) else None
@@ -31,10 +61,17 @@ if dry or len(msgs) < len(patches):
     sys.exit(0 if dry else 1)
 assert subprocess.run(["git", "-C", "/repo", "diff", "--quiet"]).returncode == 0, "/repo dirty"
 for n, p in enumerate(patches):
+    num = int(re.search(r"-(\d+)-", os.path.basename(p)).group(1))
+    if num in skip or num < only_from:
+        print("SKIPPED", os.path.basename(p)); continue
     r = subprocess.run(["git", "-C", "/repo", "apply", "--3way", p], capture_output=True, text=True)
     if r.returncode != 0:
         r = subprocess.run(["git", "-C", "/repo", "apply", p], capture_output=True, text=True)
     if r.returncode != 0:
+        rr = subprocess.run(["git", "-C", "/repo", "apply", "-R", "--check", p], capture_output=True, text=True)
+        subprocess.run(["git", "-C", "/repo", "reset", "-q", "--hard", "HEAD"])
+        if rr.returncode == 0:
+            print("ALREADY APPLIED (duplicate of an earlier fix)", os.path.basename(p)); continue
         print("APPLY FAILED", p, r.stderr); sys.exit(1)
     subprocess.check_call(["git", "-C", "/repo", "commit", "-qam", msgs[n]])
     sha = subprocess.check_output(["git", "-C", "/repo", "rev-parse", "--short", "HEAD"], text=True).strip()
